@@ -243,7 +243,7 @@ CLAIMED.update({
                 "frame lemmas over the AST of t1.py and of the store accessors it calls (never modifies the graph store; one violation "
                 "repaired in /repo, fix f6f545d).",
         "note": "heapq is a trusted multiset model; floats are reals; converse direction of label collection (every matching node is seeded) is "
-                "not discharged; relax_cap clause stated for relax_cap >= 1 (relax_cap = 0 still relaxes once: see DESIGN findings); decay "
+                "not discharged; decay "
                 "preconditions distance >= 0 and alpha >= 0; the parallel fold's counters are C09's; cache interplay is C05.",
         "design": "DESIGN.md section 3 C12",
     },
